@@ -86,6 +86,77 @@ def region_family():
 REGION_WORDS = [[b'e', b'f'], [b'f', b'e'], [b'e', b'f', b'back', b'f'], [b'f', b'f', b'e'], [b'e', b'back', b'e', b'f']]
 
 
+def done_family():
+    """<parallel> (optionally nested in a region of another <parallel>) whose regions reach <final> children on
+    events, with or without a transition on its done.state event and with a second outer region that is busy, final
+    or finishing on the same event: the situations in which the engines decide `all regions are final`"""
+    N, T = G.node, G.trans
+    out = []
+    for nested in (False, True):
+        for o2final in (False, True):
+            for ondone in (False, True):
+                for ev2 in (b'f', b'e'):
+                    for ev3 in (b'g', b'e'):
+                        inner = N('parallel', 3, [
+                            N('state', 4, [N('state', 5, trans=[T(101, b'e', None, [6])]), N('final', 6)]),
+                            N('state', 7, [N('state', 8, trans=[T(102, ev2, None, [9])]), N('final', 9)])],
+                            trans=([T(103, b'done.state.s3', None, [10])] if ondone else []))
+                        work = N('state', 2, [inner, N('state', 10)])
+                        if nested:
+                            other = N('state', 11, [N('state', 12, trans=[T(104, ev3, None, [13])]), N('final' if o2final else 'state', 13)])
+                            top = N('parallel', 1, [work, other])
+                            out.append(N('scxml', 0, [top]))
+                        else:
+                            if o2final or ev3 == b'e':
+                                continue
+                            out.append(N('scxml', 0, [work]))
+    return out
+
+
+DONE_WORDS = [[b'e', b'f'], [b'f', b'e'], [b'e', b'f', b'g'], [b'g', b'e', b'f'], [b'e', b'g', b'f'], [b'f', b'g', b'e'], [b'e'], [b'e', b'e', b'f']]
+
+
+def multi_target_family():
+    """two regions with two children each; a transition with one or two targets (both orders), internal or external,
+    on a region, on a child or on the <parallel>: transition domains of multi-target and internal transitions"""
+    N, T = G.node, G.trans
+    out = []
+    tsets = [[4], [7], [4, 7], [7, 4], [3, 7], [7, 3], [2, 7], [7, 2], [4, 5], [5, 4]]
+    for src in (1, 2, 3, 5):
+        for tg in tsets:
+            for internal in (False, True):
+                kids2 = [N('state', 3, trans=([T(101, b'e', None, tg, internal)] if src == 3 else [])), N('state', 4)]
+                kids5 = [N('state', 6), N('state', 7)]
+                r1 = N('state', 2, kids2, trans=([T(101, b'e', None, tg, internal)] if src == 2 else []))
+                r2 = N('state', 5, kids5, trans=([T(101, b'e', None, tg, internal)] if src == 5 else []))
+                p = N('parallel', 1, [r1, r2], trans=([T(101, b'e', None, tg, internal)] if src == 1 else []))
+                out.append(N('scxml', 0, [p]))
+    return out
+
+
+def history_family():
+    """a state with a (deep or shallow) history that is left and re-entered through the history several times with
+    different active descendants in between: what a history remembers, forgets and restores"""
+    N, T = G.node, G.trans
+    out = []
+    for kind in ('hd', 'hs'):
+        for deep3 in (False, True):
+            for inner_hist in (False, True):
+                a1kids = [N('state', 10, trans=[T(105, b'k', None, [11])]), N('state', 11)] if deep3 else []
+                a = N('state', 2, ([N('hs', 12, trans=[T(106, None, None, [4])])] if inner_hist else []) +
+                      [N('state', 3, a1kids, trans=[T(101, b'n', None, [4])]), N('state', 4)], trans=[T(102, b'm', None, [5])])
+                s1 = N('state', 1, [N(kind, 9, trans=[T(103, None, None, [2])]), a, N('state', 5, trans=[T(107, b'm', None, [2])])],
+                       trans=[T(104, b'out', None, [6])])
+                o = N('state', 6, trans=[T(108, b'back', None, [9])])
+                out.append(N('scxml', 0, [s1, o]))
+    return out
+
+
+HISTORY_WORDS = [[b'out', b'back', b'm', b'out', b'back'], [b'n', b'out', b'back', b'm', b'out', b'back'],
+                 [b'out', b'back', b'n', b'out', b'back'], [b'k', b'out', b'back', b'n', b'out', b'back'],
+                 [b'k', b'out', b'back', b'm', b'out', b'back', b'm', b'out', b'back'], [b'm', b'out', b'back', b'm', b'out', b'back']]
+
+
 WORDS2 = [[], [b'e'], [b'f'], [b'e', b'e'], [b'e', b'f'], [b'f', b'e'], [b'f', b'f']]
 
 
@@ -116,6 +187,15 @@ def build_cases(c, faults=0.0):
         for w in ([REGION_WORDS[(i // stride) % 2]] if quick else REGION_WORDS):
             cases.append({'tree': t, 'events': w, 'dm': 'null', 'late': False, 'origin': 'regions(%d of %d)' % (len(fam) // stride, len(fam))})
             nfam += 1
+    for t in done_family():
+        for w in DONE_WORDS:
+            cases.append({'tree': t, 'events': w, 'dm': 'null', 'late': False, 'origin': 'done-family'})
+    for t in history_family():
+        for w in HISTORY_WORDS:
+            cases.append({'tree': t, 'events': w, 'dm': 'null', 'late': False, 'origin': 'history-family'})
+    for t in multi_target_family():
+        for w in ([b'e'], [b'e', b'e']):
+            cases.append({'tree': t, 'events': w, 'dm': 'null', 'late': False, 'origin': 'multi-target-family'})
     nrand = {'lua': 1200, 'promela': 400, 'null': 400} if quick else {'lua': 12000, 'promela': 4000, 'null': 4000}
     for dm, k in nrand.items():
         for _ in range(k):
